@@ -13,7 +13,8 @@ variable (cfg : Cfg) (eval : Nat → List Val → Except Err Val) (cancelErr : E
     at the end of every maximal run in which the executor was shut down no worker process is alive,
     whatever mixture of completed, cancelled and dependent calls preceded it, in block-allocation
     and per-call mode, with any number of workers.  (No call raises; with raising calls see
-    findings D17/D19.) -/
+    findings D17/D19.)  The `_lim` twins at the end of this file are the stronger versions: `WfLim`
+    (limits only) instead of `WfRes` (every call of the program fits). -/
 theorem no_ghost_processes (hnf : NoFail eval) (hwf : WfCfg cfg) (hres : WfRes cfg)
     {script : List Cmd} {s : State Val Err}
     (hsc : (script.filter isSubmit).length ≤ cfg.calls.length)
@@ -43,6 +44,39 @@ theorem joined_worker_has_no_process (hnf : NoFail eval) (hres : WfRes cfg)
     (h : Reachable cfg eval cancelErr script s) {k : Nat} {w : Worker Val Err}
     (hk : s.wk[k]? = some w) (hpc : w.pc = .exited) : w.procAlive = false := by
   obtain ⟨_, _, hA, _⟩ := progress_hyps_reachable_wfRes cfg eval cancelErr hnf hres hsc h
+  have hp := hA.proc
+  simp only [pg_procOk, List.all_eq_true] at hp
+  have := hp w (List.mem_of_getElem? hk)
+  simpa [hpc] using this
+
+/-! ### the same with a hypothesis on the limits only (the stronger versions, cf. `C02`) -/
+
+/-- `no_ghost_processes` with `WfLim` in place of `WfRes`: any program. -/
+theorem no_ghost_processes_lim (hnf : NoFail eval) (hwf : WfCfg cfg) (hl : WfLim cfg)
+    {script : List Cmd} {s : State Val Err}
+    (hsc : (script.filter isSubmit).length ≤ cfg.calls.length)
+    (h : Reachable cfg eval cancelErr script s) (hD : pg_depOk cfg s = true)
+    (hst : Stuck cfg eval cancelErr s) (hclosed : s.frontOpen = false) : noProcessAlive s = true := by
+  obtain ⟨hC, hL, hA, hb⟩ := progress_hyps_reachable_wfLim cfg eval cancelErr hnf hl hsc h
+  have hF := accFits_reachable cfg eval cancelErr h
+  exact (stuck_final_lim cfg eval cancelErr hnf hwf hl hF hC hL.inv hA hD hb hst).2.2 hclosed
+
+/-- `no_process_when_wait_returns` with `WfLim` in place of `WfRes`: any program. -/
+theorem no_process_when_wait_returns_lim (hnf : NoFail eval) (hwf : WfCfg cfg) (hl : WfLim cfg)
+    {script : List Cmd} {s : State Val Err}
+    (hsc : (script.filter isSubmit).length ≤ cfg.calls.length)
+    (h : Reachable cfg eval cancelErr script s) (hD : pg_depOk cfg s = true)
+    {sd : Sd} (hm : s.mainPc = .inSd sd) (hpc : sd.pc = .finish) (hw : sd.wait = true) :
+    noProcessAlive s = true :=
+  (after_wait_true_lim cfg eval cancelErr hnf hwf hl hsc h hD hm hpc hw).2
+
+/-- `joined_worker_has_no_process` with `WfLim` in place of `WfRes`: any program. -/
+theorem joined_worker_has_no_process_lim (hnf : NoFail eval) (hl : WfLim cfg)
+    {script : List Cmd} {s : State Val Err}
+    (hsc : (script.filter isSubmit).length ≤ cfg.calls.length)
+    (h : Reachable cfg eval cancelErr script s) {k : Nat} {w : Worker Val Err}
+    (hk : s.wk[k]? = some w) (hpc : w.pc = .exited) : w.procAlive = false := by
+  obtain ⟨_, _, hA, _⟩ := progress_hyps_reachable_wfLim cfg eval cancelErr hnf hl hsc h
   have hp := hA.proc
   simp only [pg_procOk, List.all_eq_true] at hp
   have := hp w (List.mem_of_getElem? hk)
